@@ -9,7 +9,7 @@
 (*  env  : [t, i, op, path, pairs, scheme, hostU, hostA, port, root, err,                        *)
 (*          rpath, rargs, rhost, rurl, wurl, rbase, rroot]   EnvironBuilder(...) -> Request       *)
 (*  disp : [t, i, op, mounts, script0, p, err, app, script1, pinfo1]   DispatcherMiddleware      *)
-EXTENDS Iri, Dispatcher, TLC, Json, IOUtils
+EXTENDS Iri, Dispatcher, UrlRec, TLC, Json, IOUtils
 
 Lines == ndJsonDeserialize(IOEnv.TRACE_FILE)
 VARIABLES l
@@ -22,10 +22,13 @@ PortOK(p) == p = <<>> \/ (IsDigits(p) /\ p[1] # 48 /\ Len(p) <= 4)
 SchemeOK(s) == s # <<>> /\ \A j \in 1..Len(s) : s[j] >= 97 /\ s[j] <= 122
 
 \* ---------------------------------------------------------------- iri lines
+LowerA(s) == [j \in 1..Len(s) |-> IF s[j] >= 65 /\ s[j] <= 90 THEN s[j] + 32 ELSE s[j]]
 IriDomain(r, sx) ==
   /\ AllScalar(r.x) /\ NoTabNl(r.x)
   /\ sx.ok /\ SchemeOK(sx.scheme) /\ PortOK(sx.port)
-  /\ sx.host # <<>> /\ (sx.host = r.hostU \/ sx.host = r.hostA)
+  \* the host of x may be spelled in any ASCII letter case (ACE labels, names, IPv6 hex digits); hostU / hostA are the
+  \* lower-case facts
+  /\ sx.host # <<>> /\ (LowerA(sx.host) = r.hostU \/ LowerA(sx.host) = r.hostA)
   /\ (sx.haspass => sx.user # <<>>)
   /\ NoRaw(sx.user, Forbidden("user")) /\ NoRaw(sx.pass, Forbidden("user"))
 
@@ -35,7 +38,7 @@ Get(s, c) == CASE c = "user" -> s.user [] c = "pass" -> s.pass [] c = "path" -> 
 
 SameMeaning(sx, so) == \A j \in 1..Len(Comps) : Mean(KindOf(Comps[j]), Get(so, Comps[j])) = Mean(KindOf(Comps[j]), Get(sx, Comps[j]))
 SameKept(sx, so) == \A j \in 1..Len(Comps) : KeptEsc(KindOf(Comps[j]), Get(so, Comps[j])) = KeptEsc(KindOf(Comps[j]), Get(sx, Comps[j]))
-SameFrame(sx, so, host) == so.ok /\ so.scheme = sx.scheme /\ so.port = sx.port /\ so.host = host
+SameFrame(sx, so, host) == so.ok /\ so.scheme = sx.scheme /\ so.port = sx.port /\ LowerA(so.host) = host
 \* a clean IRI: nothing that either direction has to keep quoted
 Clean(s) == \A j \in 1..Len(s) : s[j] # PCT /\ s[j] > 32 /\ s[j] # 127
 CleanUrl(sx) == \A j \in 1..Len(Comps) : Clean(Get(sx, Comps[j]))
@@ -125,10 +128,46 @@ JudgeDisp(r) == IF r.err # "" THEN "DispatchRaised"
 DriftDisp(r) == r.err # "" \/ LET d == Dispatch(MountSet(r.mounts), r.script0, r.p) IN
                                d.app = r.app /\ d.script = r.script1 /\ d.pinfo = r.pinfo1
 
+\* ---------------------------------------------------------------- urlrec lines: every URL reconstruction entry point
+\*  [scheme, hostU, hostA, port, root, path, pairs, err, outs]; root / path = the decoded SCRIPT_NAME / PATH_INFO the
+\*  environ denotes (or the arguments of a direct sansio call; <<-2>> = None); outs[j] = [hr, hp, wq, u, again]:
+\*  the entry point was given / asked for the root (hr), the path (hp), the query (wq); u = its result,
+\*  again = uri_to_iri(u).  Request.url/base_url/root_url/host_url, wsgi.get_current_url in all flag combinations,
+\*  sansio.utils.get_current_url with 2..5 arguments.
+RecDomain(r) ==
+  /\ SchemeOK(r.scheme) /\ PortOK(r.port) /\ r.hostU # <<>> /\ PairsScalar(r.pairs)
+  /\ (r.root = ABSENT \/ (AllScalar(r.root) /\ ~HasEsc(r.root)))
+  /\ (r.path = ABSENT \/ (AllScalar(r.path) /\ ~HasEsc(r.path)))
+OutKind(r, o) == IF ~o.hr \/ r.root = ABSENT THEN "host" ELSE IF ~o.hp \/ r.path = ABSENT THEN "root"
+                 ELSE IF o.wq /\ r.pairs # <<>> THEN "full" ELSE "noq"
+OutClause(r, o) ==
+  LET k == OutKind(r, o) su == SplitUrl(o.u) IN
+  IF ~su.ok \/ su.scheme # r.scheme \/ su.hasuser \/ su.frag # <<>> THEN "UrlRecShape"
+  ELSE IF LowerA(su.host) \notin {r.hostU, r.hostA} \/ su.port # ShownPort(r) THEN "UrlRecHost"
+  ELSE IF Mean("path", su.path) # TextMean(ExpPathText(k, r.root, r.path)) THEN "UrlRecPath"
+  ELSE IF k = "full" /\ ParseQuery(su.query) # r.pairs THEN "UrlRecQueryLost"
+  ELSE IF k # "full" /\ (su.query # <<>> \/ 63 \in {o.u[j] : j \in 1..Len(o.u)}) THEN "UrlRecQueryUnasked"
+  ELSE IF o.again # o.u THEN "UrlRecNotFixpoint"
+  ELSE "ok"
+JudgeRec(r) ==
+  IF ~RecDomain(r) THEN "ok"
+  ELSE IF r.err # "" THEN "UrlRecRaised"
+  ELSE LET bad == {j \in 1..Len(r.outs) : OutClause(r, r.outs[j]) # "ok"} IN
+       IF bad # {} THEN OutClause(r, r.outs[CHOOSE j \in bad : \A k \in bad : j <= k])
+       ELSE IF \E j, k \in 1..Len(r.outs) : OutKind(r, r.outs[j]) = OutKind(r, r.outs[k]) /\ r.outs[j].u # r.outs[k].u THEN "UrlRecDisagree"
+       ELSE "ok"
+\* drift: the path / query text of a full reconstruction equals the model's
+DriftRec(r) ==
+  IF ~RecDomain(r) \/ r.err # "" \/ r.qraw = ABSENT THEN TRUE
+  ELSE \A j \in 1..Len(r.outs) :
+         LET o == r.outs[j] su == SplitUrl(o.u)
+             m == CurUrlImpl(IF o.hr THEN r.root ELSE ABSENT, IF o.hp THEN r.path ELSE ABSENT, IF o.wq THEN r.qraw ELSE <<>>) IN
+         su.ok /\ su.path = m.path /\ su.query = m.query
+
 Verdict(r) == CASE r.op = "iri" -> JudgeIri(r) [] r.op = "dance" -> JudgeDance(r) [] r.op = "env" -> JudgeEnv(r)
-                [] r.op = "disp" -> JudgeDisp(r) [] OTHER -> "UnknownOp"
+                [] r.op = "disp" -> JudgeDisp(r) [] r.op = "urlrec" -> JudgeRec(r) [] OTHER -> "UnknownOp"
 Drift(r) == CASE r.op = "iri" -> DriftIri(r) [] r.op = "dance" -> DriftDance(r) [] r.op = "env" -> DriftEnv(r)
-              [] r.op = "disp" -> DriftDisp(r) [] OTHER -> TRUE
+              [] r.op = "disp" -> DriftDisp(r) [] r.op = "urlrec" -> DriftRec(r) [] OTHER -> TRUE
 
 Init == l = 1
 Next == /\ l <= Len(Lines)
